@@ -22,7 +22,7 @@ ASSUMPTIONS = [
 
 def shards(tier, seed):
     n = 16 if tier == "quick" else 64
-    out = [{"id": "int"}, {"id": "sweep"}, {"id": "invivo"}]
+    out = [{"id": "int"}, {"id": "int-wide"}, {"id": "sweep"}, {"id": "invivo"}]
     out += [{"id": "layout%d" % i, "n": 900 if tier == "quick" else 6000} for i in range(n)]
     return out
 
@@ -113,6 +113,9 @@ def gen_layout_big(rng, size):
     return fields, used
 
 
+NAME_STYLES = ["f.%d", "grp.f%d", "grp.sub.f%d", "%d", "field %d", "f%d.", ".f%d", "__f%d__", "f-%d", "größe%d", "f%d[0]", "keys%d", "f/%d", "f%d:x"]
+
+
 def failing_calls(ctx, conv):
     """calls that fail (a field beyond the buffer, a value that is no number): whatever they raise, they leave nothing behind
     for the calls that follow"""
@@ -138,7 +141,13 @@ def run_layout_case(ctx, conv, R, rng, size, fields, used, values=None, tag="lay
 
     if rng.random() < 0.05:
         failing_calls(ctx, conv)
-    names = ["f%d" % i for i in range(len(fields))]
+    # field names are the caller's: any string is a name and nothing more (dots, blanks, digits, other alphabets, dunder names)
+    style = rng.choice(NAME_STYLES) if rng.random() < 0.3 else "f%d"
+    names = [style % i for i in range(len(fields))]
+    if values is not None:
+        values = {style % int(k[1:]): v for k, v in values.items()}
+    if style != "f%d":
+        ctx.add("name_styles", style)
     check = {}
     vals = {}
     nontrivial = False
@@ -193,8 +202,17 @@ def run_layout_case(ctx, conv, R, rng, size, fields, used, values=None, tag="lay
         ctx.count("layouts_with_int_subclass_values")
     # ... in any Mapping (the notation's own type annotation), not only a dict
     as_mapping = rng.choice([dict, dict, dict, collections.UserDict, collections.OrderedDict, lambda d: collections.ChainMap(d)])
+    data1 = {k: given[k] for k in order}
+    if rng.random() < 0.25:
+        # entries that name no field of the layout are not encoded, whatever they hold
+        stray = {"_none": 0xFF, names[0].partition(".")[0] + "_": 1, "_map": {"f0": 1}, "_list": [255, 0, 8], "_bytes": b"\xff\xff"}
+        if "." in names[0]:
+            head, _d, tail = names[0].partition(".")
+            stray[head] = {tail: vals[names[0]] if not isinstance(vals[names[0]], bytearray) else 1, names[0]: 1}
+        data1.update(stray)
+        ctx.count("encodes_with_entries_outside_the_layout")
     try:
-        conv.encode_dict(as_mapping({k: given[k] for k in order}), {k: check[k] for k in order}, buf1)
+        conv.encode_dict(as_mapping(data1), {k: check[k] for k in order}, buf1)
     except Exception as e:  # noqa: BLE001
         ctx.fail("C10:encode.raises", "encode_dict raised %s" % type(e).__name__, wit, exc=e)
         return
@@ -238,6 +256,8 @@ def run_layout_case(ctx, conv, R, rng, size, fields, used, values=None, tag="lay
     def plain(d):
         return {k: (bytes(v) if isinstance(v, (bytes, bytearray)) else v) for k, v in d.items()}
 
+    if set(out1) != set(names):
+        ctx.fail("C10:decode.result_keys", "decode_bits stored its values under %r, the layout's names are %r" % (sorted(map(str, out1))[:6], names[:6]), wit)
     if plain(out1) != plain(out2):
         ctx.fail("C10:decode.order_dependent", "decode result depends on field order", wit)
     # the result dictionary is the caller's: decoding into one that already holds values (of an earlier decode with the same
@@ -329,6 +349,29 @@ def run(shard, ctx):
                 for typ in (bytes, bytearray):
                     if conv.scsi_ba_to_int(typ(b)) != R.from_be(b):
                         ctx.fail("C10:ba_to_int", "scsi_ba_to_int(%s) wrong" % b.hex(), {"bytes": b})
+        return
+    if sid == "int-wide":
+        # "for every width": also the sizes of whole parameter lists and identifiers (hundreds of bytes)
+        sizes = [17, 20, 24, 31, 32, 33, 48, 63, 64, 65, 100, 127, 128, 129, 200, 254, 255, 256, 257, 258, 260, 300, 511, 512, 513, 1000, 1024, 1025, 2048, 4096, 65536]
+        for size in sizes:
+            vals = [0, 1, 255, 256, (1 << (8 * size)) - 1, 1 << (8 * size - 1), 1 << (8 * (size - 1)), (1 << (8 * size)) - 256]
+            vals += [rng.getrandbits(8 * size) for _ in range(12)] + [rng.getrandbits(rng.randint(1, 8 * size)) for _ in range(6)]
+            for v in vals:
+                ctx.case(("int", size, v), True)
+                try:
+                    ba = conv.scsi_int_to_ba(v, size)
+                    back = conv.scsi_ba_to_int(ba)
+                    back2 = conv.scsi_ba_to_int(bytes(R.be(v, size)))
+                except Exception as e:  # noqa: BLE001
+                    ctx.fail("C10:int.raises", "int/bytes conversion raised for size %d" % size, {"value": v, "size": size}, exc=e)
+                    continue
+                ctx.count("wide_int_roundtrips")
+                ctx.add("wide_sizes", size)
+                if bytes(ba) != bytes(R.be(v, size)) or not isinstance(ba, bytearray):
+                    ctx.fail("C10:int_to_ba", "scsi_int_to_ba(value, %d) is not the big-endian representation (first difference at byte %d)" % (
+                        size, next((i for i in range(min(len(ba), size)) if ba[i] != R.be(v, size)[i]), -1)), {"value": v, "size": size})
+                if back != v or back2 != v:
+                    ctx.fail("C10:ba_to_int", "scsi_ba_to_int of the %d-byte representation does not give the value back" % size, {"value": v, "size": size})
         return
     if sid == "sweep":
         # single field, every alignment, exhaustive values for narrow fields
@@ -491,6 +534,8 @@ def finalize(merged, tier):
         merged["inconclusive"].append("in-vivo converter hooks were never evaluated")
     if c.get("encode_calls", 0) == 0:
         merged["inconclusive"].append("no generated layout was encoded")
+    if c.get("wide_int_roundtrips", 0) < 500 or c.get("encodes_with_entries_outside_the_layout", 0) < 100 or len(merged.get("sets", {}).get("name_styles", [])) < 10:
+        merged["inconclusive"].append("wide integers, stray entries or odd field names were hardly exercised")
     return {"hook_evaluations": {k: v for k, v in c.items() if k.startswith("invivo")}}
 
 
